@@ -386,10 +386,11 @@ func (e *Engine) RunJob(job Job, workers int) (*JobResult, error) {
 				errs <- err
 				return
 			}
-			if e.cfg.SolverLogDir != "" {
+			if e.cfg.SolverLogDir != "" && w == 0 {
+				// one worker's session is kept (capped) for the second-solver cross-check
 				f, _ := os.Create(fmt.Sprintf("%s/solver-%s-%d.smt2", e.cfg.SolverLogDir, sanitize(job.Name), w))
 				if f != nil {
-					sol.log = f
+					sol.log = &cappedWriter{w: f, max: 4 << 20}
 					defer f.Close()
 				}
 			}
@@ -482,4 +483,19 @@ func (i *interpreter) callNamed(fr *frame, pkg, name string, args []value) value
 		panic(engineError{"callNamed: no function " + pkg + "." + name})
 	}
 	return call(i, fr, token.NoPos, f, args)
+}
+
+// cappedWriter stops writing after max bytes (the reader cuts at the last complete path).
+type cappedWriter struct {
+	w   *os.File
+	n   int
+	max int
+}
+
+func (c *cappedWriter) Write(p []byte) (int, error) {
+	if c.n < c.max {
+		c.n += len(p)
+		return c.w.Write(p)
+	}
+	return len(p), nil
 }
